@@ -29,6 +29,8 @@ type SchedResult struct {
 	SwitchSites []int
 	Violation   string
 	Aborted     bool
+	// BlockedHandoffs: see the instrumented scheduler
+	BlockedHandoffs int
 }
 
 // RunConcurrent without instrumentation runs the tasks one after the other
